@@ -56,7 +56,8 @@ def history_excerpt(path, around=None, n=40):
 
 
 def history_stage(rep, proof_ok, sc, lib, prop, drv, harness_src, gen, tier, seed, replay=None, rule="",
-                  nontrivial=None, search_rounds=2, proof_log="", prop_file="", known_patterns=None, nohooks_reps=0):
+                  nontrivial=None, search_rounds=2, proof_log="", prop_file="", known_patterns=None, nohooks_reps=0,
+                  sweep_kinds=(), sweep_n=40):
     """runs the scenarios of one property on the scratch build and files violations in rep; returns coverage dict"""
     okd, drv_exe, derr = vlib.build_driver(drv)
     if not okd:
@@ -90,6 +91,19 @@ def history_stage(rep, proof_ok, sc, lib, prop, drv, harness_src, gen, tier, see
             r["i"] = len(res) + j
         stats["runs_without_hooks"] = len(nh)
         res = res + nh
+    if sweep_kinds and not replay:
+        # perturbation sweep: part of the scenarios again with a delay injected right after every record of one kind
+        # (a lock release, a state store, ...): windows of a few instructions are held open for up to 200 us, as a
+        # preemption at that point would
+        sw = []
+        for k in sweep_kinds:
+            sw += run_scenarios(hexe, drv_exe, scenarios[:sweep_n], sc, tag="sweep%d_%s" % (k, prop),
+                                env={"VH_TARGET_KIND": str(k), "VH_TARGET_US": "200"})
+        for j, r in enumerate(sw):
+            r["i"] = len(res) + j
+        stats["runs_with_targeted_delay"] = len(sw)
+        stats["delay_after_record_kinds"] = list(sweep_kinds)
+        res = res + sw
     nev = 0
     for r in res:
         if r["model_line"].startswith("OK"):
@@ -126,10 +140,13 @@ def history_stage(rep, proof_ok, sc, lib, prop, drv, harness_src, gen, tier, see
         if not only_stuck:
             confirmed.append(r)
             continue
+        if confirmed:
+            continue   # one reportable failure is enough: do not spend minutes re-running further timeouts
         scn = re.sub(r"WATCHDOG \d+", "WATCHDOG 75", r["scenario"])
         again = []
         for k in range(2):
-            again += run_scenarios(hexe, drv_exe, [scn], sc, tag="confirm_%s_%d_%d" % (prop, r["i"], k), timeout=120, workers=1)
+            again += run_scenarios(hexe, drv_exe, [scn], sc, tag="confirm_%s_%d_%d" % (prop, r["i"], k), timeout=120, workers=1,
+                                   env=r.get("env") or None)
             if again[-1]["status"] != "OK":
                 break
         if any(a["status"] != "OK" for a in again):
@@ -229,7 +246,8 @@ def run_sched_property(prop, prop_files, targets, name_re, gen, tier, seed, repl
             return rep.finish(proof, {"evaluations": 0})
         cov = history_stage(rep, proof["ok"], sc, lib, prop, "sched", "h_sched.c", gen, tier, seed, replay=replay, rule=rule,
                             proof_log=proof["log"], prop_file=",".join(prop_files), known_patterns=known_patterns,
-                            nohooks_reps=3 if tier == "quick" else 2)
+                            nohooks_reps=3 if tier == "quick" else 2,
+                            sweep_kinds=(40, 30, 34, 42), sweep_n=30 if tier == "quick" else 200)
     return rep.finish(proof, cov)
 
 
@@ -253,7 +271,8 @@ def run_history_property(prop, prop_file, targets, drv, harness_src, gen, tier, 
             return rep.finish(proof, {"evaluations": 0})
         cov = history_stage(rep, proof["ok"], sc, lib, prop, drv, harness_src, gen, tier, seed, replay=replay, rule=rule,
                             nontrivial=nontrivial, search_rounds=search_rounds, proof_log=proof["log"], prop_file=prop_file,
-                            known_patterns=known_patterns)
+                            known_patterns=known_patterns,
+                            sweep_kinds=(3, 10, 20), sweep_n=40 if tier == "quick" else 300)
         if stage_extra:
             stage_extra(rep, sc, lib, cov, tier, seed)
     return rep.finish(proof, cov)
